@@ -244,20 +244,35 @@ Qed.
 (* ---------------------------------------------------------------- *)
 (* C13                                                                *)
 
-(* while the StartTLS (or Unbind) handler runs on the loop goroutine, a step
-   of that goroutine executes the handler: it takes no request from the input;
-   the only bytes it may take are the client's handshake, and only from the
-   head of the input *)
+Definition is_req (it : item) : Prop := match it with IReq _ _ => True | _ => False end.
+
+Lemma after_plain_split l : exists d, l = d ++ after_plain l /\ Forall is_req d.
+Proof.
+  induction l as [|it r IH]; [exists []; split; [reflexivity|constructor]|].
+  destruct it as [k sc| |]; cbn [after_plain]; try (exists []; split; [reflexivity|constructor]).
+  destruct IH as (d & E & F). exists (IReq k sc :: d). split; [cbn; rewrite <- E; reflexivity|constructor; [exact I|exact F]].
+Qed.
+
+(* while the StartTLS (or Unbind) handler runs on the loop goroutine, a step of that
+   goroutine executes the handler: it dispatches no request (the read counter and the
+   handlers started do not change).  The only step that takes anything from the input is the
+   handshake: it takes the client's handshake bytes (a ClientHello, or bytes that are none: the
+   handshake then fails), and the requests the client had pipelined in the clear in front of
+   them disappear with the old reader - they are never served *)
 Theorem c13_inline cfg s c c' e k sc : conn_step cfg s c = Some (c', e) -> pc c = CInline k sc ->
   nread c' = nread c /\ started c' = started c /\
-  (input c' = input c \/ exists rest, sc = HHandshake :: rest /\ (input c = IHello :: input c' \/ input c = IBad :: input c')).
+  (input c' = input c \/
+   exists rest d, sc = HHandshake :: rest /\ Forall is_req d /\
+                  (input c = d ++ IHello :: input c' \/ input c = d ++ IBad :: input c')).
 Proof.
   unfold conn_step. intros H Hpc. rewrite Hpc in H.
   destruct sc as [|h rest]; [destruct k; inversion H; subst; cbn; auto|].
   destruct (negb (hstep_enabled s c h)); [discriminate|].
   destruct h; [|destruct (recovery cfg)|..]; try (inversion H; subst; cbn; auto; fail).
   inversion H; subst; cbn. split; [reflexivity|]. split; [reflexivity|].
-  destruct (input c) as [|[| |] r]; auto; right; eexists; (split; [reflexivity|]); [right|left]; reflexivity.
+  destruct (after_plain_split (input c)) as (d & E & F).
+  destruct (after_plain (input c)) as [|[| |] r] eqn:Ea; auto; right; exists rest, d;
+    (split; [reflexivity|]); (split; [exact F|]); [right|left]; exact E.
 Qed.
 
 (* per-request goroutines never touch the input or the read counter either *)
